@@ -275,6 +275,8 @@ structure St where
   CleanSession=0 connection" is left open by the property, so the SessionPresent bit of the next
   accepted CONNECT of that client is not compared in the specification stream (`CONNACK 1|0 0`) -/
   tent : List Bytes := []
+  /-- `srvclose` has been seen: the server is gone, every further event until `reset` is void -/
+  srvClosed : Bool := false
 
 def St.pendOf (st : St) (c : Nat) : Bytes := (st.pend.lookup c).getD []
 def St.setPend (st : St) (c : Nat) (bs : Bytes) : St :=
@@ -450,9 +452,27 @@ def handleHsRace (st : St) (ea : Ev) (b : Nat) (bs : Bytes) : St × String × St
     let (evs, rest') := if accepted then Mqtt.Model.Framing.postEvents ringSize b (rest.length + 1) rest else ([], [])
     runRaw st b true ([eb] ++ evs ++ [ea]) rest'
 
-def handle (st : St) (ws : List String) : St × String × String :=
+def handle1 (st : St) (ws : List String) : St × String × String :=
   match ws with
   | ["reset"] => ({}, "reset", "reset")
+  | ["srvclose"] =>
+    if st.srvClosed then (st, "-", "-") else
+    -- `Server.Close`: `stop()` for every live connection in the order of registration = the
+    -- non-graceful end of each (`Model.Broker.srvClose = stopAll b (liveIds b)`, `.close c` one by one;
+    -- republishing callbacks run in between as for any end).  Every connection is closed on this line,
+    -- so what else it was sent on it is not observed (the rule of `ownFilter`); callbacks see everything.
+    let ids := Mqtt.Model.Broker.liveIds st.m
+    let r := ids.foldl (fun (acc : Mqtt.Model.Broker.B × Mqtt.Spec.Broker.S × List Out × List Mqtt.Spec.Broker.SOut) c =>
+      let (m, mo) := stepM st.repub acc.1 (.close c)
+      let (s, so) := stepS st.repub acc.2.1 (.close c)
+      (m, s, acc.2.2.1 ++ mo, acc.2.2.2 ++ so)) (st.m, st.s, [], [])
+    let mo := r.2.2.1.filter (fun o => match o with | .send _ _ => false | _ => true)
+    let so := r.2.2.2.filter (fun o => match o with
+      | .send _ _ | .sendOrClose _ _ => false
+      | .deliver ow _ | .retained ow _ => decide (Mqtt.Spec.Broker.cbBase ≤ ow)
+      | _ => true)
+    let st1 : St := { st with m := r.1, s := r.2.1, pend := [], heldM := [], heldS := [], srvClosed := true }
+    emit st1 none false mo so
   | "hsrace" :: a :: rest =>
     let (af, bf) := splitSemi rest
     match parseEv ("first" :: a :: af), bf with
@@ -547,5 +567,8 @@ def handle (st : St) (ws : List String) : St × String × String :=
       | _ =>
         let (st', ml, sl) := emit st1 none false mo so
         (tentAfter st' ev, ml, tentLine st ev sl)
+
+def handle (st : St) (ws : List String) : St × String × String :=
+  if st.srvClosed && ws != ["reset"] then (st, "-", "-") else handle1 st ws
 
 end Mqtt.Driver.Broker
